@@ -202,7 +202,7 @@ func cmdCheck(args []string) int {
 			}
 			if p.Status == "panic" {
 				// a panic that escapes the harness entry is an outcome of its own
-				id := e.Fn + ".panicfree"
+				id := e.Fn + ".panicfree[" + p.PanicClass + "]"
 				a := obl[id]
 				if a == nil {
 					a = &agg{entries: map[string]bool{}}
@@ -662,7 +662,13 @@ func TestZZReplay(t *testing.T) {
 		cmd := exec.Command("go", "test", "-vet=off", "-count=1", "-run", "^TestZZReplay$", "-overlay", ovFile, "-timeout", "600s", ".")
 		cmd.Dir = pkgDir
 		cmd.Env = append(os.Environ(), "GOFLAGS=-mod=mod", "GOPROXY=off", "GOSUMDB=off", "GOTOOLCHAIN=local", "ZZ_REPLAY_LIST="+listFile, "ZZ_REPLAY_OUT="+outFile)
+		if os.Getenv("ZZ_DEBUG") != "" {
+			cmd.Args = append(cmd.Args[:2], append([]string{"-v"}, cmd.Args[2:]...)...)
+		}
 		outb, err := cmd.CombinedOutput()
+		if os.Getenv("ZZ_DEBUG") != "" {
+			fmt.Println(string(outb))
+		}
 		data, rerr := os.ReadFile(outFile)
 		if rerr != nil {
 			return nil, fmt.Errorf("go test (native replay) failed: %v\n%s", err, tail(string(outb), 30))
